@@ -284,6 +284,59 @@ def direct_stats(oracle, k):
     return {"len": N, "md": float(np.mean(mds)), "md_std": float(np.std(mds)), "acc": float(np.mean(accs)), "acc_std": float(np.std(accs))}
 
 
+class FitClf(BaseEstimator, ClassifierMixin):
+    """a classifier whose decision depends on what it was trained on: threshold = mean of the first feature of the training rows"""
+
+    def fit(self, X, y):
+        X = np.asarray(X, dtype=float)
+        self.thr_ = float(X[:, 0].mean())
+        self.classes_ = np.array([0, 1])
+        return self
+
+    def predict(self, X):
+        return (np.asarray(X, dtype=float)[:, 0] > self.thr_).astype(int)
+
+
+def fit_margin(*args):
+    sample, clf = args[-2], args[-1]
+    return int(abs(float(sample[0]) - clf.thr_) <= 0.5)
+
+
+def run_refstats(case, ctx):
+    """reference statistics with a training-dependent classifier and a margin function that reads it, on references with repeated rows
+    (repeated rows land in different folds, where the fitted classifiers differ)"""
+    from sklearn.model_selection import KFold
+
+    rng = gen.rng_for(case["seed"], "refstats")
+    k = int(rng.choice([2, 3, 5]))
+    N = int(rng.integers(max(6, 2 * k), 40))
+    a = np.round(rng.normal(0, 1, N), 1)
+    a[rng.integers(0, N, size=N // 2)] = a[rng.integers(0, N, size=N // 2)]  # repeated rows
+    b = np.zeros(N)
+    y = ((a > 0).astype(int) ^ (rng.random(N) < 0.25)).astype(int)
+    ref = pd.DataFrame({"a": a, "b": b, "y": y})
+    det = MD3(clf=FitClf(), margin_calculation_function=fit_margin, sensitivity=1.0, k=k)
+    det.set_reference(ref, target_name="y")
+    feats, ys = ref[["a", "b"]].to_numpy(), ref["y"].to_numpy()
+    mds, accs = [], []
+    for tr, te in KFold(n_splits=k, random_state=42, shuffle=True).split(feats):
+        thr = float(feats[tr][:, 0].mean())
+        mds.append(float(np.mean([int(abs(v - thr) <= 0.5) for v in feats[te][:, 0]])))
+        accs.append(float(np.mean((feats[te][:, 0] > thr).astype(int) == ys[te])))
+    exp = {"md": float(np.mean(mds)), "md_std": float(np.std(mds)), "acc": float(np.mean(accs)), "acc_std": float(np.std(accs))}
+    got = {k_: float(det.reference_distribution[k_]) for k_ in exp}
+    ctx.count("reference_summaries_with_training_dependent_classifier")
+    bad = [k_ for k_ in exp if abs(got[k_] - exp[k_]) > 1e-9]
+    if bad:
+        ctx.violation("C19/reference_statistics_fitted_classifier", "reference of %d rows (%d distinct), k=%d: %s; the %d-fold summary with the classifier refitted "
+                      "per fold gives %s" % (N, len(set(a.tolist())), k, {k_: got[k_] for k_ in bad}, k, {k_: exp[k_] for k_ in bad}),
+                      k=k, reference=ref.to_numpy().tolist())
+        return
+    ctx.nontrivial = len(set(a.tolist())) < N
+    ctx.sample = {"kind": "reference summary, classifier refitted per fold", "rows": N, "distinct": len(set(a.tolist())), "k": k, "summary": got}
+    ctx.digest = "refstats-%s" % (case["seed"],)
+
+
 def make_reference(rng, N, acc_noise):
     a = rng.normal(0, 1, N)
     a[: N // 2] = rng.uniform(-0.45, 0.45, N // 2)  # in-margin rows so that margin density varies over folds
@@ -377,6 +430,7 @@ def cases(tier, seed):
                             "depth": depth, "acc_depth": acc_depth, "cost": (6 ** (depth - 2) + 2 ** acc_depth) / 500.0})
     nr = 200 if tier == "quick" else 2500
     out += [{"id": "rand/%d" % i, "kind": "rand", "seed": [seed, 19, i], "cost": 2} for i in range(nr)]
+    out += [{"id": "refstats/%d" % i, "kind": "refstats", "seed": [seed, 190, i], "cost": 0.5} for i in range(60 if tier == "quick" else 600)]
     return out
 
 
@@ -384,7 +438,7 @@ def targets(tier):
     k = 1 if tier == "quick" else 10
     t = {"calls_compared": 200000 * k, "warnings": 5000 * k, "confirmed": 200 * k, "ruled_out": 200 * k, "labels_accepted": 5000 * k,
          "reference_fold_logs_checked": 500, "exhaustive_sequences": 50000 * (1 if tier == "quick" else 50), "state_graph_nodes": 50000 * k,
-         "oracle_fold_logs_checked": 1000 * k}
+         "oracle_fold_logs_checked": 1000 * k, "reference_summaries_with_training_dependent_classifier": 40 * k}
     for c in ("U1", "U0", "L+", "L-", "Lx", "U2", "L2", "Le"):
         t["refused:" + c] = 50 * k
     return t
@@ -395,6 +449,8 @@ def run_case(case, ctx):
     import collections
 
     counts = collections.Counter()
+    if case["kind"] == "refstats":
+        return run_refstats(case, ctx)
     if case["kind"] == "exh":
         cfg = case["cfg"]
         base = dict(cfg=cfg, start=case["start"], prefix=case["prefix"])
